@@ -90,16 +90,17 @@
                         466 / 496                           acquire requests_lock
      WClose1  467                                           W close_when_flushed := True [DWorkerClose]
      WClose2  469-471                                       W requests := []
-     WClose3                                                release requests_lock
+     WClose3                                                release requests_lock (and the rest
+              of service(), as at WKeep5)                                    [LServiceEnd]
      WKeep1   497 requests.pop(0) (IndexError if empty: lock released by the `with`, LCrash)
      WKeep2   499                                           R connected
      WKeep3   499                                           R requests (non-empty?)
      WKeepAdd 500                                           server.add_task(self)
-     WKeepE   502 R connected (elif), 503-506 (environment: is there a pending Expect head?),
-              511 send_continue(): _flush_some(do_close=True) on the WORKER; a disconnect errno
-              runs handle_close on the worker (F18)                          [DHandleCloseW]
+     WKeepE   502 R connected (elif), 503-506, 511 send_continue(do_close=False): the worker's
+              flush never runs handle_close (a disconnect errno makes send return 0)
      WKeep5                                                 release requests_lock
-     WEnd     513-516 R connected, pull_trigger, W last_activity; service() returns [LServiceEnd]
+              and the rest of service() (513-516: R connected, pull_trigger, W last_activity),
+              which touches nothing the model keeps                          [LServiceEnd]
 
    SD:  SdIdle: shutdown's `task = queue.popleft()` (task.py:133, under the dispatcher lock)
         SdC1 520 W will_close := True [DCancelWC]; SdC2 521 W connected := False [DCancelConn];
@@ -136,8 +137,7 @@ Inductive dkind :=
 | DMaint         (* maintenance: will_close := True *)
 | DFlushErrIO    (* _flush_exception inside handle_write (I/O thread): will_close := True *)
 | DFlushErrW     (* _flush_exception(do_close=False) on a worker: will_close := True   (F22) *)
-| DHandleClose   (* handle_close on the I/O thread: connected := False *)
-| DHandleCloseW  (* handle_close on a worker (send_continue at the end of service(), F18) *)
+| DHandleClose   (* handle_close (always on the I/O thread): connected := False *)
 | DEof           (* handle_read: connected := False *)
 | DCancelWC      (* cancel(): will_close := True *)
 | DCancelConn.   (* cancel(): connected := False *)
@@ -176,8 +176,7 @@ Inductive wpc :=
 | WTask (sid : nat) (mc : bool)
 | WClose1 (sid : nat) | WClose2 (sid : nat) | WClose3 (sid : nat)
 | WKeep1 (sid : nat) | WKeep2 (sid : nat) | WKeep3 (sid : nat) | WKeepAdd (sid : nat)
-| WKeepE (sid : nat) | WKeep5 (sid : nat)
-| WEnd (sid : nat).
+| WKeepE (sid : nat) | WKeep5 (sid : nat).
 
 Inductive sdpc := SdIdle | SdC1 | SdC2 | SdC3.
 
@@ -205,8 +204,7 @@ Inductive wkenv :=
 | WNone
 | WRdConn
 | WFlushErr
-| WLock (b : bool)
-| WCont (sc dc : bool).   (* WKeepE: send_continue happens (sc), its flush hits a disconnect (dc) *)
+| WLock (b : bool).
 
 Inductive choice :=
 | CIo (e : ioenv)
@@ -419,7 +417,7 @@ Definition step_wk (s : state) (w : nat) (e : wkenv) : option (state * list labe
   | WClose1 k, WNone =>
       Some (set_wk (decide (set_cwf s true) DWorkerClose) w (WClose2 k), [LDecide DWorkerClose])
   | WClose2 k, WNone => Some (set_wk (set_reqs s []) w (WClose3 k), [])
-  | WClose3 k, WNone => Some (set_wk (set_rlock s None) w (WEnd k), [])
+  | WClose3 k, WNone => Some (set_wk (set_rlock s None) w WIdle, [LServiceEnd k])
   | WKeep1 k, WNone =>
       match reqs s with
       | [] => Some (set_wk (set_rlock s None) w WIdle, [LCrash k])
@@ -433,12 +431,8 @@ Definition step_wk (s : state) (w : nat) (e : wkenv) : option (state * list labe
       | _ :: _ => Some (set_wk s w (WKeepAdd k), [])
       end
   | WKeepAdd k, WNone => Some (set_wk (set_queue s (S (queue s))) w (WKeep5 k), [LAddTask (ByW w)])
-  | WKeepE k, WCont sc dc =>
-      if conn s && sc && dc then
-        Some (set_wk (decide (handle_close s) DHandleCloseW) w (WKeep5 k), [LDecide DHandleCloseW])
-      else Some (set_wk s w (WKeep5 k), [])
-  | WKeep5 k, WNone => Some (set_wk (set_rlock s None) w (WEnd k), [])
-  | WEnd k, WNone => Some (set_wk s w WIdle, [LServiceEnd k])
+  | WKeepE k, WNone => Some (set_wk s w (WKeep5 k), [])
+  | WKeep5 k, WNone => Some (set_wk (set_rlock s None) w WIdle, [LServiceEnd k])
   | _, _ => None
   end.
 
